@@ -83,7 +83,7 @@ func init() {
 	handlers["C16"] = &handler{
 		plan: func(tier string) *PlanT {
 			if tier == "thorough" {
-				return &PlanT{Workers: 16, Variants: []string{"default"}, Steps: 5000}
+				return &PlanT{Workers: 16, Variants: []string{"default"}, Steps: 2000}
 			}
 			return &PlanT{Workers: 1, Variants: []string{"default"}, Steps: 600}
 		},
